@@ -169,18 +169,18 @@ type observation struct {
 	ClipEvents  int
 }
 
-// flatten replays the events of the first page.  base maps device space to CSS page coordinates
+// flatten replays the events of page pg (0-based).  base maps device space to CSS page coordinates
 // (inverse of the page set-up transform, which is known from the zoom and the page height).
-func flatten(doc *rec.Doc, base mat) *observation {
+func flatten(doc *rec.Doc, pg int, base mat) *observation {
 	obs := &observation{}
-	if len(doc.Pages) == 0 {
+	if len(doc.Pages) <= pg {
 		obs.Unsupported = append(obs.Unsupported, "no page")
 		return obs
 	}
-	page := doc.Pages[0].ID
+	page := doc.Pages[pg].ID
 	byCanvas := map[int][]int{}
 	for i, e := range doc.Events {
-		if e.Page != 0 || e.Cv == 0 {
+		if e.Page != pg || e.Cv == 0 {
 			continue
 		}
 		byCanvas[e.Cv] = append(byCanvas[e.Cv], i)
